@@ -853,21 +853,28 @@ pub fn gen_malformed(rng: &mut Rng, cfg: &SvcCfg, token: &str) -> GenReq {
             let cut = rng.below(good.len().max(1));
             (good[..cut].to_vec(), "bad:truncated")
         }
-        9 => {
-            let mut g = good.clone();
-            if !g.is_empty() { let i = rng.below(g.len()); g[i] ^= 1 << rng.below(8); }
-            (g, "bad:bitflip")
-        }
-        10 => {
-            let mut g = good.clone();
-            if !g.is_empty() { let i = rng.below(g.len()); g.remove(i); }
-            (g, "bad:delete")
-        }
-        11 => {
-            let mut g = good.clone();
-            let i = rng.below(g.len() + 1);
-            g.insert(i, 0xC3);
-            (g, "bad:insert-utf8")
+        k @ 9..=11 => {
+            // a one-byte damage of a well-formed request.  Some damages leave a well-formed request behind
+            // (a changed character inside a string, e.g. inside the token the predicates attribute replies
+            // by): those are not malformed messages and would break the fixture's "one token per request"
+            // convention, so another position is tried
+            let mut res = None;
+            for _ in 0..32 {
+                let mut g = good.clone();
+                match k {
+                    9 => { if !g.is_empty() { let i = rng.below(g.len()); g[i] ^= 1 << rng.below(8); } }
+                    10 => { if !g.is_empty() { let i = rng.below(g.len()); g.remove(i); } }
+                    _ => { let i = rng.below(g.len() + 1); g.insert(i, 0xC3); }
+                }
+                if serde_json::from_slice::<varlink::Request>(&g).is_err() {
+                    res = Some(g);
+                    break;
+                }
+            }
+            match res {
+                Some(g) => (g, match k { 9 => "bad:bitflip", 10 => "bad:delete", _ => "bad:insert-utf8" }),
+                None => (b"{".to_vec(), "bad:trunc-brace"),
+            }
         }
         12 => (b"{\"method\":\"a.b\",\"method\":\"c.d\"}".to_vec(), "bad:dup-key"),
         _ => {
